@@ -158,6 +158,10 @@ func c18HelperJob(raw json.RawMessage) (any, error) {
 		if it.Only != "" && it.Only != probe {
 			return
 		}
+		// an earlier TRACE answer whose client had gone away: nothing of it may turn up in the next answer
+		gone := hv.NewWriter()
+		gone.Broken = true
+		Guard(func() { mux.Trace(gone, mkTraceReq("TRACE", "/earlier", "LEFTOVER-OF-ANOTHER-REQUEST", "earlier body", false), true) })
 		w := hv.NewWriter()
 		if len(path)%2 == 0 {
 			w.Header().Set("Content-Type", "text/html; charset=utf-8") // what an outer middleware may have set as a default
@@ -255,6 +259,13 @@ func c18Composition(rc *explore.RunCtx) {
 			g.Add(nil, r)
 			return g, r
 		}, "tR"},
+	}
+	// an option value that is not a handler of this router's type is refused when the router is built (documented),
+	// never silently dropped
+	for _, bad := range []any{"not a handler", 42, func() {}} {
+		if _, paniced := Guard(func() { NewRouter(RouterCfg{}, mux.WithTrace(bad)) }); !paniced {
+			rc.Report(explore.Violation{Property: "C18", Clause: "C18.option-composition", Class: "wrong-type-trace-option-ignored", Config: fmt.Sprintf("NewRouter(WithTrace(%T))", bad), Probe: "NewRouter", Observed: "router built; the option was dropped", Expected: "panic: the value is not of the router's handler type"})
+		}
 	}
 	for _, s := range systems {
 		srv, r := s.srv()
